@@ -12,7 +12,9 @@
 (***************************************************************************)
 EXTENDS CarBase, Json
 
-CONSTANTS Cfgs,     \* set of [target ("path"|"stream"), v1, ident, dup, whole]
+CONSTANTS Cfgs,     \* set of [target ("path"|"stream"), v1, ident, dup, whole, pre]
+                    \* pre: the path already holds a (longer) file when the writer is constructed;
+                    \* target = "stream" with v1 = FALSE: the caller passed WriteAsCarV1(false) explicitly
           Roots,    \* one root list
           PutIds, HasIds, MaxOps, MaxCbs
 
@@ -42,8 +44,17 @@ Has(b) ==
   ELSE Rec([op |-> "has", b |-> b],
            {IF (IsIdent(b) /\ ~d.c.ident) \/ Carries(d.c, d.secs, b) THEN "true" ELSE "false"}, <<>>, d)
 
+(* A direct writer with these options cannot be constructed at all: CARv2 needs a target that can be
+   written at an offset, a plain stream cannot.  The deferred writer must refuse likewise -- at the first
+   Put, since it constructs nothing before -- and write nothing.  The listeners have been told by then. *)
+Refuses(c) == c.target = "stream" /\ ~c.v1
+
 Put(b) ==
   IF d.closed THEN Rec([op |-> "put", b |-> b], {"closed"}, <<>>, d)          \* no callback after Close
+  ELSE IF Refuses(d.c)
+    THEN Rec([op |-> "put", b |-> b], {"err"},
+             [i \in 1..Len(d.cbs) |-> [id |-> d.cbs[i].id, n |-> Blk[b].len]],
+             [d EXCEPT !.cbs = SelectSeq(d.cbs, LAMBDA cb : ~cb.once)])
   ELSE Rec([op |-> "put", b |-> b], {"ok"},
            [i \in 1..Len(d.cbs) |-> [id |-> d.cbs[i].id, n |-> Blk[b].len]],   \* every callback, registration order
            [d EXCEPT !.created = TRUE,
@@ -62,18 +73,18 @@ Spec == Init /\ [][Next]_vars
 
 (* What the target holds *)
 Output(x) ==
-  IF ~x.created THEN [kind |-> "nothing"]
+  IF ~x.created THEN [kind |-> IF x.c.pre THEN "untouched" ELSE "nothing"]
   ELSE IF x.c.v1 THEN [kind |-> "v1", roots |-> Roots, secs |-> x.secs]
   ELSE IF x.closed THEN [kind |-> "v2", roots |-> Roots, secs |-> x.secs]
   ELSE [kind |-> "v2open", roots |-> Roots, secs |-> x.secs]
 
-Lazy == ~d.created => (d.secs = <<>> /\ \A i \in 1..Len(hist) : hist[i].op.op # "put" \/ hist[i].res = {"closed"})
+Lazy == ~d.created => (d.secs = <<>> /\ \A i \in 1..Len(hist) : hist[i].op.op # "put" \/ hist[i].res \in {{"closed"}, {"err"}})
 OnceFiresOnce ==
   \A id \in 1..d.nreg :
      LET fires == { i \in 1..Len(hist) : \E k \in 1..Len(hist[i].fired) : hist[i].fired[k].id = id }
          reg   == CHOOSE i \in 1..Len(hist) : hist[i].op.op = "onput" /\ hist[i].op.id = id
          once  == hist[reg].op.once
-         putsAfter == { i \in (reg+1)..Len(hist) : hist[i].op.op = "put" /\ hist[i].res = {"ok"} }
+         putsAfter == { i \in (reg+1)..Len(hist) : hist[i].op.op = "put" /\ hist[i].res \in {{"ok"}, {"err"}} }
      IN IF once THEN Cardinality(fires) = (IF putsAfter = {} THEN 0 ELSE 1)
         ELSE fires = putsAfter
 ClosedIsFinal == [][d.closed => d'.closed /\ d'.secs = d.secs /\ d'.created = d.created]_vars
